@@ -17,14 +17,13 @@ def check_C04(res, tier, seed, replay):
                         'real Open MPI runs (thorough tier / C11) keep the shim honest']
     wd = vlib.scratch('C04')
     try:
-        for cfg, what in (('MC_Mpi_slices.cfg', 'ceil-stride slicing covers 0..total-1 exactly once for every P and total (incl. P > total)'),
-                          ('MC_Mpi_hidden.cfg', 'hidden-edge search split over ranks examines every odd cycle class when all ranks iterate the signed edges in ONE order'),
-                          ('MC_Mpi_proto.cfg', 'collective protocol of the MPI main loops: every rank terminates, same collective sequence on all ranks')):
-            if os.path.exists(os.path.join(vlib.SPEC, cfg)):
-                r = vlib.tlc_ok('Mpi', cfg, extra=['-coverage', '1'], timeout=3000)
-                if r['violated']:
-                    raise vlib.HarnessError('Mpi/%s violated\n%s' % (cfg, r['out'][-3000:]))
-                res.add_mc('Mpi.tla ' + what, r)
+        for mod, cfg, what in (('MpiSlices', 'MC_MpiSlices.cfg', 'ceil-stride slicing partitions 0..total-1 for every P <= 6 and total <= 9 (incl. P > total, total = 0)'),
+                               ('MpiHidden', 'MC_MpiHidden.cfg', 'hidden-edge search split over ranks examines every odd cycle class when all ranks use ONE order of the signed edges (K=5, P=3, all 120 orders)'),
+                               ('MpiProto', 'MC_MpiProto.cfg', 'collective protocol (scatter; per phase bcast [reduce]) with the single-edge branch: every rank returns, no mismatch, P=3, <=3 phases, both variants')):
+            r = vlib.tlc_ok(mod, cfg, extra=['-coverage', '1'], timeout=3000)
+            if r['violated']:
+                raise vlib.HarnessError('%s/%s violated\n%s' % (mod, cfg, r['out'][-3000:]))
+            res.add_mc(mod + '.tla: ' + what, r)
         exe = harness()
         inputs = []
         gs, _ = gens.tlc_graphs(wd, 4, [1, 2])
